@@ -920,7 +920,7 @@ func main() { wx.Main() }
 
 
 def build_batch(ctx, scns, tag):
-    d = os.path.join(vlib.HARNESS, "work", "%s-%s" % (ctx.id, ctx.tier), "wb_" + tag)
+    d = os.path.join(vlib.HARNESS, "work", "%s-%s%s" % (ctx.id, ctx.tier, getattr(ctx, "worktag", "")), "wb_" + tag)
     if os.path.isdir(d):
         shutil.rmtree(d)
     os.makedirs(d)
